@@ -188,18 +188,16 @@ func (wb *memWriteBatch) DeleteRange(start, end []byte) {
 		if wb.writer == nil {
 			wb.writer = wb.db.radixMemI.memkv.Txn(true)
 		}
-		it, err := wb.db.radixMemI.NewIterator()
-		if err != nil {
-			wb.hasErr = err
-			return
-		}
+		// iterate on the view of this batch, so the keys written by the
+		// previous operations in the same batch can be deleted too
+		it := &radixIterator{miTxn: wb.writer.Snapshot()}
 		it.Seek(start)
 		for ; it.Valid(); it.Next() {
 			k := it.Key()
 			if end != nil && bytes.Compare(k, end) >= 0 {
 				break
 			}
-			err = wb.db.radixMemI.Delete(wb.writer, k)
+			err := wb.db.radixMemI.Delete(wb.writer, k)
 			if err != nil {
 				wb.hasErr = err
 				break
@@ -277,7 +275,13 @@ func (wb *memWriteBatch) Merge(key []byte, value []byte) {
 		}
 		var err error
 		if oldV == nil {
-			oldV, err = wb.db.GetBytesNoLock(key)
+			// read from the view of this batch, the key may be deleted by the
+			// previous operations in the same batch
+			var v interface{}
+			_, v, err = wb.writer.First(key)
+			if err == nil && v != nil {
+				_, oldV, err = memdb.KVFromObject(v)
+			}
 		}
 		cur, err := GetRocksdbUint64(oldV, err)
 		if err != nil {
